@@ -113,12 +113,21 @@ Definition has_shift_prefix (w : string) : bool :=
 Definition plain_ident (w : string) : bool := match classify w with CIdent => is_ident w | _ => false end.
 Definition elem_okb (r : wreg) : bool := andb (wreg_okb r) (orb (is_vec r) (is_scalar r)).
 Definition idx_okb (i : option string) : bool := match i with None => true | Some d => dec_ok d end.
-(* extend/shift operators of the A64 addressing modes; `full` = what the architecture has,
-   otherwise what the implementation understands *)
-Definition ext_ops (full : bool) : list string := if full then ["lsl";"uxtw";"sxtw";"sxtx"] else ["lsl";"uxtw";"sxtw";"uxtb"].
+(* extend/shift operators of the A64 addressing modes: what the implementation understands; `full` adds the
+   architecture's sxtx, which it does not *)
+Definition ext_ops (full : bool) : list string :=
+  if full then ["lsl";"uxtw";"sxtw";"uxtb";"sxtx"] else ["lsl";"uxtw";"sxtw";"uxtb"].
+(* every upper/lower-case spelling of a lower-case word *)
+Fixpoint variants (s : string) : list string :=
+  match s with
+  | EmptyString => [""]
+  | String c r => flat_map (fun t => [String c t; String (upc c) t]) (variants r)
+  end.
+Definition ext_words (full : bool) : list string := flat_map variants (ext_ops full).
+Definition cond_words : list string := flat_map variants cond_codes.
 Definition wext_okb (full : bool) (e : wext) : bool :=
   match e with mkwext op am =>
-    andb (mem_str (lower op) (ext_ops full))
+    andb (mem_str op (ext_words full))
          (match am with None => true
                    | Some (_, n) => andb (num_okb n) (andb (negb (n_neg n)) (negb (n_hex n))) end)
   end.
@@ -133,7 +142,7 @@ Definition wop_okb (full : bool) (o : wop) : bool :=
   | WInt _ n => num_okb n
   | WFlt _ f => wfloat_okb f
   | WIdent _ w => plain_ident w
-  | WCond w => mem_str (lower w) cond_codes
+  | WCond w => mem_str w cond_words
   | WMem b t c =>
     andb (wbase_okb b)
     (andb (match t with
@@ -276,7 +285,7 @@ Definition wline_okb (full : bool) (l : wline) : bool :=
     (andb (order_okb ops) (andb (first_okb ops) (andb (comment_okb c) (orb full (noswallow_okb ops))))))))
   | WLLabel n c => andb (is_ident n) (comment_okb c)
   | WLDirective n ps c =>
-    andb (dir_name_ok ("." ++ n)) (andb (forallb dir_param_ok ps) (andb (comment_okb c)
+    andb (dir_name_ok ("." ++ n)) (andb (forallb (fun p => andb (dir_param_ok p) (sall is_wordch p)) ps) (andb (comment_okb c)
          (orb full (negb (match c with
                           | Some raw => andb (has_comma raw) (swallowing_param (last ps "0"))
                           | None => false end)))))
@@ -296,17 +305,18 @@ Fixpoint word_run (w acc : string) : bool :=
   end.
 Definition word_ok (w : string) : bool :=
   match w with
-  | String "-" ((String d _) as r) => andb (is_digit d) (word_run r "-")
-  | String c _ => andb (is_wordch c) (word_run w "")
+  | String c r =>
+    if ceq c "-" then match r with String d _ => andb (is_digit d) (word_run r "-") | EmptyString => false end
+    else andb (is_wordch c) (word_run w "")
   | EmptyString => false
   end.
 Definition clash (prev : option tok) (t : tok) : bool :=
   match prev, t with
   | Some (TW _), TW _ => true
-  | Some (TW w), TP "-" => sign_ctx w
-  | Some (TP "-"), TW w => head_is is_digit w
-  | Some (TP "/"), TP "/" => true
-  | Some (TP "/"), TC _ => true
+  | Some (TW w), TP c => andb (ceq c "-") (sign_ctx w)
+  | Some (TP p), TW w => andb (ceq p "-") (head_is is_digit w)
+  | Some (TP p), TP c => andb (ceq p "/") (ceq c "/")
+  | Some (TP p), TC _ => ceq p "/"
   | _, _ => false
   end.
 Definition tok_okb (t : tok) (last : bool) : bool :=
@@ -319,8 +329,8 @@ Fixpoint lay_okb (prev : option tok) (lay : list string) (ts : list tok) : bool 
     andb (sall is_ws ws) (andb (orb (nonempty ws) (negb (clash prev t)))
          (andb (tok_okb t (match r with [] => true | _ => false end)) (lay_okb (Some t) (tl lay) r)))
   end.
-Definition ends_with_comment (ts : list tok) : bool :=
-  match rev ts with TC _ :: _ => true | _ => false end.
+Fixpoint ends_with_comment (ts : list tok) : bool :=   (* a comment token is always the last one (tok_okb) *)
+  match ts with [] => false | TC _ :: _ => true | _ :: r => ends_with_comment r end.
 (* the line: white space lay_i before token i, `trail` after the last token unless it is a comment
    (a comment extends to the end of the line, so trailing blanks belong to its raw text) *)
 Definition render (lay : list string) (trail : string) (l : wline) : string :=
@@ -350,3 +360,21 @@ Fixpoint tightb (lay : list string) (trail : string) (ts : list tok) : bool :=
   end.
 Definition cond_tight (lay : list string) (trail : string) (l : wline) : bool :=
   let ts := toks_line l in tightb lay (if ends_with_comment ts then "" else trail) ts.
+
+(* layout_okb = the tokens are lexable (a property of the tree: Proofs/ParseA64Words.v shows it for every
+   well-formed line) + the spacing proper *)
+Fixpoint sep_okb (prev : option tok) (lay : list string) (ts : list tok) : bool :=
+  match ts with
+  | [] => true
+  | t :: r =>
+    let ws := hd "" lay in
+    andb (sall is_ws ws) (andb (orb (nonempty ws) (negb (clash prev t))) (sep_okb (Some t) (tl lay) r))
+  end.
+Fixpoint toks_okb (ts : list tok) : bool :=
+  match ts with
+  | [] => true
+  | t :: r => andb (tok_okb t (match r with [] => true | _ => false end)) (toks_okb r)
+  end.
+(* all that is asked of a layout: white space only, and non-empty where two tokens would otherwise fuse *)
+Definition spacing_okb (lay : list string) (trail : string) (l : wline) : bool :=
+  andb (sall is_ws trail) (sep_okb None lay (toks_line l)).
